@@ -4,6 +4,7 @@ package report
 
 import (
 	"encoding/json"
+	"errors"
 	"sort"
 	"sync"
 	"sync/atomic"
@@ -37,8 +38,12 @@ type vfRRScript struct {
 		// Cmp (icpt level, sr): shape of the compound packet that carries the sender report: 0 alone, 1 after the sender
 		// report of an SSRC that is not bound, 2 between other packet types and followed by a foreign sender report.
 		Cmp int `json:"cmp"`
+		// WFail (icpt level, report): the RTCP writer refuses the writes of this tick (after it has seen the packets)
+		WFail bool `json:"wfail"`
 	} `json:"steps"`
 }
+
+var errVfRRInjected = errors.New("injected RTCP write failure") //nolint:gochecknoglobals
 
 var vfRREpoch = time.Date(2026, 1, 1, 0, 0, 0, 0, time.UTC) //nolint:gochecknoglobals
 
@@ -193,10 +198,14 @@ func vfRunRRIcpt(t *testing.T, sc *vfRRScript, out *vfWriter) {
 
 	var mu sync.Mutex
 	var written []rtcp.Packet
+	var failNow atomic.Bool
 	ic.BindRTCPWriter(interceptor.RTCPWriterFunc(func(pkts []rtcp.Packet, _ interceptor.Attributes) (int, error) {
 		mu.Lock()
 		defer mu.Unlock()
 		written = append(written, pkts...)
+		if failNow.Load() {
+			return 0, errVfRRInjected
+		}
 
 		return len(pkts), nil
 	}))
@@ -284,8 +293,10 @@ func vfRunRRIcpt(t *testing.T, sc *vfRRScript, out *vfWriter) {
 			written = nil
 			mu.Unlock()
 			clock.Store(st.T)
+			failNow.Store(st.WFail)
 			gate.release <- struct{}{} // run exactly one tick body
 			waitArrive()               // parked at the next tick: every write of the previous body has happened
+			failNow.Store(false)
 			mu.Lock()
 			got := written
 			written = nil
